@@ -534,7 +534,85 @@ func c08CheckXML(c c08Case) obs.Result {
 		return obs.Violationf("the tree of the XML reader differs from the document as the standard decoder reports it:\n%s  tree: %s\n  doc:  %q", sb.String(), got.Render(), c.Doc)
 	}
 	r.Release(root)
+	if msg := c08Interleaved(c.Doc); msg != "" {
+		return obs.Violationf("%s", msg)
+	}
 	return obs.OK(nonTrivial, classes...)
+}
+
+// c08Interleaved: a reader's tree is a function of its own document. Two more readers over the same document and
+// over a twin whose namespace prefixes are renamed are driven alternately, element by element ("/*/*"); what each
+// delivers must be what it delivers when it runs alone.
+func c08Interleaved(doc string) string {
+	twin := doc
+	for _, pr := range [][2]string{{"p", "zp"}, {"q", "zq"}, {"n", "zn"}, {"x", "zx"}} {
+		twin = strings.ReplaceAll(twin, "xmlns:"+pr[0]+"=", "xmlns:"+pr[1]+"=")
+		twin = strings.ReplaceAll(twin, "<"+pr[0]+":", "<"+pr[1]+":")
+		twin = strings.ReplaceAll(twin, "</"+pr[0]+":", "</"+pr[1]+":")
+		twin = strings.ReplaceAll(twin, " "+pr[0]+":", " "+pr[1]+":")
+	}
+	if _, err := model.ParseXMLDOM([]byte(twin)); err != nil {
+		return "" // the textual renaming broke the twin: nothing to compare
+	}
+	solo := func(d string) ([]string, bool) {
+		r, err := idr.NewXMLStreamReader(strings.NewReader(d), "/*/*")
+		if err != nil {
+			return nil, false
+		}
+		var out []string
+		for i := 0; i < 500; i++ {
+			n, err := r.Read()
+			if err != nil {
+				return out, true
+			}
+			out = append(out, idr.JSONify2(n))
+			r.Release(n)
+		}
+		return out, false
+	}
+	wantA, okA := solo(doc)
+	wantB, okB := solo(twin)
+	if !okA || !okB {
+		return ""
+	}
+	ra, _ := idr.NewXMLStreamReader(strings.NewReader(doc), "/*/*")
+	rb, _ := idr.NewXMLStreamReader(strings.NewReader(twin), "/*/*")
+	ia, ib := 0, 0
+	for doneA, doneB := false, false; !(doneA && doneB); {
+		if !doneA {
+			n, err := ra.Read()
+			if err != nil {
+				doneA = true
+				if ia != len(wantA) {
+					return fmt.Sprintf("interleaved with another live reader, reader A delivers %d elements, alone %d", ia, len(wantA))
+				}
+			} else {
+				if ia >= len(wantA) || idr.JSONify2(n) != wantA[ia] {
+					return fmt.Sprintf("interleaved with a live reader over a prefix-renamed twin, reader A's element %d is %s; alone it is %s\ndoc  %q\ntwin %q",
+						ia, idr.JSONify2(n), append(wantA, "(none)")[ia], doc, twin)
+				}
+				ia++
+				ra.Release(n)
+			}
+		}
+		if !doneB {
+			n, err := rb.Read()
+			if err != nil {
+				doneB = true
+				if ib != len(wantB) {
+					return fmt.Sprintf("interleaved with another live reader, reader B delivers %d elements, alone %d", ib, len(wantB))
+				}
+			} else {
+				if ib >= len(wantB) || idr.JSONify2(n) != wantB[ib] {
+					return fmt.Sprintf("interleaved with a live reader over the original document, the twin reader's element %d is %s; alone it is %s\ndoc  %q\ntwin %q",
+						ib, idr.JSONify2(n), append(wantB, "(none)")[ib], doc, twin)
+				}
+				ib++
+				rb.Release(n)
+			}
+		}
+	}
+	return ""
 }
 
 func checkC08(c c08Case) obs.Result {
